@@ -37,6 +37,10 @@ CHECKS = {
    text="TLC checks Handshake.tla (version selection, capability derivation at initialize time, client state machine); the server graph (7 version classes x registration states, incl. register-then-reinitialize) is covered on Streamable (stateful/stateless), legacy SSE and stdio servers by raw peers; the client graph (Initialize with 5 scripted outcomes, 7 operations, Close) is covered and randomly walked on the Streamable, legacy SSE and stdio clients against a recording scripted server / scripted child process, comparing error class, GetState() and requests on the wire per step; walk logs are validated by TLC against TraceHandshake.",
    note="Trusted: TLC, the scripted recording server and the scripted stdio child (this binary re-executed). The transient 'connected' state and Initialize-after-Close are not driven.",
    technique="TLA+ model checking (TLC) + edge-cover walks on real servers and clients + TLC trace validation"),
+ "C13": dict(level="model_checking", design="DESIGN.md §5 C13",
+   text="TLC checks ReqContext (per-request context travelling through context functions, body arrival, middleware, filter/handler of up to 4 concurrent requests) and finds the bleed when the enriched context is parked in a server-wide slot; interleavings of these steps for 2 and 3 concurrent requests are forced on real Streamable (stateful, stateless) and legacy SSE servers - through gates inside instrumented context functions, middleware, list filters and handlers, and through a deliberately slow request body - and every stage reports the token, context-function order, session, server handle and notification sender it sees; list answers are compared with what the filter admits for that caller (an admin and a user ask for the same list); stage logs are validated by TLC against TraceContext.",
+   note="Trusted: TLC, the instrumented stages (harness code), goroutine identity to attribute a filter call to its request. Server handle: must never be foreign and must be present in tool handlers; its absence elsewhere is not flagged (the code injects it for tool calls only). Notification sender required on Streamable HTTP only.",
+   technique="TLA+ model checking (TLC) + gate-forced interleaving replay + TLC trace validation"),
 }
 NA = {
  "C20": "data-race freedom is a statement about individual memory accesses under the Go memory model; an abstract state-machine specification has no notion of them (see DESIGN.md §6)",
